@@ -22,6 +22,7 @@ import (
 	"fmt"
 	"runtime/debug"
 	"strings"
+	"time"
 
 	"github.com/ipni/go-libipni/ingest/model"
 	"github.com/libp2p/go-libp2p/core/crypto"
@@ -33,6 +34,7 @@ import (
 )
 
 var pool *keypool.Pool
+var gctx *vlib.Ctx
 
 const (
 	rdIngest   = "ingest"
@@ -82,6 +84,11 @@ type replayT struct {
 	Note       string   `json:"note,omitempty"`
 	Expect     string   `json:"expect,omitempty"`
 	Sig        string   `json:"signature,omitempty"`
+	// pair: a request built inside this request's Sign call
+	Inner *replayT `json:"inner,omitempty"`
+	// stress
+	Goroutines int `json:"goroutines,omitempty"`
+	Millis     int `json:"millis,omitempty"`
 }
 
 func hx(b []byte) string { return hex.EncodeToString(b) }
@@ -92,6 +99,7 @@ func main() {
 	debug.SetMemoryLimit(2 << 30)
 	c := vlib.Init("C18")
 	defer c.Finish()
+	gctx = c
 	req := []string{"From Lib Require Import SymCrypto.", "From Model Require Import C18_Requests."}
 	c.Family("consts", req, "consts_case_ok", 10)
 	c.Family("unsigned", req, "unsigned_case_ok", 400)
@@ -122,6 +130,8 @@ func main() {
 		"alt: for one request per key type and reader EVERY byte offset of the sealed bytes is altered (2 values per offset as Coq cases, more as oracle-only; thorough: all 255). " +
 		"field: key / type / payload / signature replaced, key and signature swapped between two valid envelopes, re-signing by another key, sealing for other domains, domain/type boundary shift, each record type sealed under the other's domain or type. " +
 		"garbage: empty, random bytes, every truncation, appended bytes / unknown fields. " +
+		"interleaved constructors: a private key whose Sign builds, seals and reads back ANOTHER request (ingest / register, same identity, same key type, other key type; fields of equal, shorter, longer encoded length; nested twice) before it signs - both requests must read back with their own fields; a short concurrent stress of constructors + readers (oracle only). " +
+		"read order: the same valid / foreign-signed / altered / cross-domain requests read in several orders and concurrently - every verdict equals the verdict in isolation. " +
 		"non-trivial = the presented bytes parse and carry a signature that some pool key really made (the verdict depends on who signed what)"
 	genConsts(c)
 	genUnsigned(c)
@@ -130,6 +140,9 @@ func main() {
 	genField(c)
 	genAlter(c)
 	genGarbage(c)
+	genNested(c)
+	genReadOrder(c)
+	genStress(c)
 }
 
 // ---------------------------------------------------------------------------
@@ -303,11 +316,19 @@ type makeIn struct {
 	provider    peer.ID
 	mh, ctx, md []byte
 	addrs       []string
+	// inner: another request that is built, sealed and read back INSIDE this request's
+	// Sign call (see nest.go), i.e. between this request's marshalling and its envelope's
+	// marshalling
+	inner *makeIn
 }
 
 func (m makeIn) replay() *replayT {
-	return &replayT{Kind: "pair", Reader: m.reader, SignerPriv: hx(keypool.MarshalPriv(m.signer.Priv)), SignerType: m.signer.Type,
+	r := &replayT{Kind: "pair", Reader: m.reader, SignerPriv: hx(keypool.MarshalPriv(m.signer.Priv)), SignerType: m.signer.Type,
 		Provider: m.provider.String(), MH: hx(m.mh), Ctx: hx(m.ctx), MD: hx(m.md), Addrs: m.addrs}
+	if m.inner != nil {
+		r.Inner = m.inner.replay()
+	}
+	return r
 }
 
 func callMake(m makeIn) (data []byte, err error) {
@@ -316,10 +337,14 @@ func callMake(m makeIn) (data []byte, err error) {
 			data, err = nil, fmt.Errorf("panic: %v", r)
 		}
 	}()
-	if m.reader == rdIngest {
-		return model.MakeIngestRequest(m.provider, m.signer.Priv, m.mh, m.ctx, m.md, m.addrs)
+	var key crypto.PrivKey = m.signer.Priv
+	if m.inner != nil {
+		key = &nestKey{PrivKey: m.signer.Priv, during: func() { makeAndRead(gctx, *m.inner, "nested-inner") }}
 	}
-	return model.MakeRegisterRequest(m.provider, m.signer.Priv, m.addrs)
+	if m.reader == rdIngest {
+		return model.MakeIngestRequest(m.provider, key, m.mh, m.ctx, m.md, m.addrs)
+	}
+	return model.MakeRegisterRequest(m.provider, key, m.addrs)
 }
 
 // doMake runs the real constructor, records the make case, notes the signature it made
@@ -328,7 +353,7 @@ func doMake(c *vlib.Ctx, m makeIn, wantErr bool) []byte {
 	data, err := callMake(m)
 	// DER signatures vary in length; keep the most common total so that the set of
 	// altered offsets is the same on every run
-	if err == nil && (m.signer.Type == "ecdsa" || m.signer.Type == "secp256k1") {
+	if err == nil && m.inner == nil && (m.signer.Type == "ecdsa" || m.signer.Type == "secp256k1") {
 		for try := 0; try < 200; try++ {
 			if v := parseView(data); v == nil || len(v.sig) == 71 {
 				break
@@ -396,6 +421,10 @@ func makeAndRead(c *vlib.Ctx, m makeIn, kind string) []byte {
 		nontrivKey: fmt.Sprintf("%s/%s/%d/%d", kind, m.reader, m.signer.Index, pool.IDIndex(m.provider))}
 	if own {
 		p.expect, p.sig = "accept", m.reader+":own-request-rejected:"+m.signer.Type
+		if m.inner != nil {
+			p.sig = fmt.Sprintf("%s:interleaved-constructor:own-request-rejected:%s/%s:%s", m.reader, m.signer.Type, m.inner.reader, m.inner.signer.Type)
+			p.desc += fmt.Sprintf("; while it was being signed a %s request was built with key %d (%s)", m.inner.reader, m.inner.signer.Index, m.inner.signer.Type)
+		}
 		if m.reader == rdIngest {
 			p.want = ingestFields{MH: m.mh, Provider: m.provider, Ctx: m.ctx, MD: m.md, Addrs: m.addrs}
 			p.shrink = func() *replayT { return shrinkIngest(m).replay() }
@@ -456,9 +485,15 @@ func runReplay(c *vlib.Ctx, r replayT) {
 		ctx, _ := hex.DecodeString(r.Ctx)
 		md, _ := hex.DecodeString(r.MD)
 		m := makeIn{reader: r.Reader, signer: signer, provider: prov, mh: mh, ctx: ctx, md: md, addrs: r.Addrs}
+		if r.Inner != nil {
+			in := makeInOfReplay(*r.Inner)
+			m.inner = &in
+		}
 		data := makeAndRead(c, m, "replay")
 		o := callReader(r.Reader, data)
 		fmt.Printf("  signer %s, provider named %s: %s reader returned %s %s\n", signer.ID, prov, r.Reader, o.kind, o.errStr)
+	case "stress":
+		runStress(c, r.Goroutines, time.Duration(r.Millis)*time.Millisecond)
 	default:
 		panic("unknown replay kind " + r.Kind)
 	}
